@@ -52,7 +52,11 @@ def encircled_energy(data,
             2 vectors: diameters and encircled energies
 
     """
-    dim = data.shape[0] // 2
+    # (half the side as a number: for an odd side the middle of the image is the
+    # centre of its middle pixel and the circles are drawn on the image's own
+    # grid; data.shape[0] // 2 made them one pixel smaller than the image)
+    size = data.shape[0]
+    dim = size / 2.
     if center is None:
         center = [dim, dim]
     xc = center[0]
@@ -64,7 +68,7 @@ def encircled_energy(data,
 
     for i in range(npt):
         pup = functions.pupil.circle(rad[i],
-                           int(dim) * 2,
+                           size,
                            circle_centre=(xc, yc),
                            origin='corner')
         rad[i] = numpy.sqrt(numpy.sum(pup) * 4 / numpy.pi)  # diameter
